@@ -76,6 +76,10 @@ type DefaultFanController struct {
 
 	// offset applied to the actual minPwm of the fan to ensure "neverStops" constraint
 	minPwmOffset int
+
+	// the last output of the control loop, in the [0..255] scale of the curve,
+	// **before** mapping it to the [minPwm, maxPwm] range of the fan
+	lastControlLoopTarget *int
 }
 
 func NewFanController(
@@ -441,7 +445,13 @@ func (f *DefaultFanController) calculateTargetPwm() (int, error) {
 	}
 
 	// the target pwm, approaching the actual target smoothly
-	target = f.controlLoop.Cycle(target, lastSetPwm)
+	// Note: the control loop works on the [0..255] scale of the curve, so it has to be fed
+	// its own previous output, not the last set pwm, which is mapped to the range of the fan
+	current := lastSetPwm
+	if f.lastControlLoopTarget != nil {
+		current = *f.lastControlLoopTarget
+	}
+	target = f.controlLoop.Cycle(target, current)
 
 	// ensure target value is within bounds of possible values
 	if target > fans.MaxPwmValue {
@@ -451,6 +461,8 @@ func (f *DefaultFanController) calculateTargetPwm() (int, error) {
 		ui.Warning("Tried to set out-of-bounds PWM value %d on fan %s", target, fan.GetId())
 		target = fans.MinPwmValue
 	}
+	controlLoopTarget := target
+	f.lastControlLoopTarget = &controlLoopTarget
 
 	// map the target value to the possible range of this fan
 	maxPwm := fan.GetMaxPwm()
